@@ -882,6 +882,14 @@ def _interp_cubic(ctx, p, negative=False):
                 raise
             if negative:
                 break
+    if not negative:
+        c2 = rng.normal(size=(4, 4, 4))
+        values2 = ref.poly3(c2, g.points)
+        _register(values2, c=c2, h=h, fmax=float(np.abs(values2).max()), tag=":same-grid-new-data")
+        with ctx.guard("interp-cubic-exact", subj + ":same-grid-new-data"):
+            g.interpolate(q, values2, nu_x=0, nu_y=0, nu_z=0, method="cubic")
+            g.interpolate(q, values2, nu_x=1, nu_y=0, nu_z=2, method="cubic")
+            ctx.count("interpolate:same-grid-object-new-data")
     _TRUTH.clear()
 
 
@@ -902,6 +910,12 @@ def _interp_log(ctx, p):
                 nu = [0, 0, 0]
                 nu[axis] = order
                 g.interpolate(q, values, use_log=True, nu_x=nu[0], nu_y=nu[1], nu_z=nu[2])
+        c2 = rng.normal(size=(4, 4, 4))
+        c2 = c2 * (rng.uniform(0.5, 2.5) / np.abs(ref.poly3(c2, g.points)).max())
+        values2 = ref.exp_poly3(c2, g.points)
+        _register(values2, c=c2, h=h, fmax=float(values2.max()), pmax=float(np.abs(ref.poly3(c2, g.points)).max()), tag=":same-grid-new-data")
+        g.interpolate(q, values2, use_log=True)
+        ctx.count("interpolate:same-grid-object-new-data")
     _TRUTH.clear()
 
 
@@ -916,6 +930,14 @@ def _interp_linear(ctx, p):
     with ctx.guard("interp-linear-exact", f"{type(g).__name__}.interpolate:linear"):
         g.interpolate(q, values, method="linear")
         g.interpolate(q[:1], values, False, 0, 0, 0, "linear")
+        # the same grid object interpolates OTHER data afterwards (answers must follow the data passed in)
+        for _ in range(2):
+            c2 = np.zeros((4, 4, 4))
+            c2[:2, :2, :2] = rng.normal(size=(2, 2, 2)) * 3.0
+            values2 = ref.poly3(c2, g.points)
+            _register(values2, c=c2, h=h, fmax=float(np.abs(values2).max()) or 1.0, tag=":same-grid-new-data")
+            g.interpolate(q, values2, method="linear")
+            ctx.count("interpolate:same-grid-object-new-data")
     _TRUTH.clear()
     # recorded, not decided: 'linear' with use_log=True hands back the interpolated logarithm
     if not _SEEN.get("linear-log"):
